@@ -20,7 +20,8 @@ RULE = ("hostile archives from the reference writer: entries (name x kind) with 
         "absolute outside, /, a/../x (through a name a later entry turns into a link) ...}; ALL archives of 1 and 2 entries over the full alphabet, all 3-entry archives over a reduced "
         "alphabet and over the respelled alphabet (names a, ./a, b, ./b: a later entry under another spelling replaces the earlier one on disk), random 4-5 entry "
         "archives; destination absolute / relative / None(cwd), empty or pre-populated; opened by path or stream; single folder or one folder per "
-        "entry (1-entry archives: every destination form x pre-populated or not; larger families: configurations rotate over batches of 250 in the quick tier, "
+        "entry; link chains with one folder per entry on the parallel path under a controlled scheduler (workers parked at mkdir/open/symlink, released in random "
+        "order); two-call histories extract(first two entries), reset(), extract(third entry) (1-entry archives: every destination form x pre-populated or not; larger families: configurations rotate over batches of 250 in the quick tier, "
         "2-entry and respelled families run under every destination form in the thorough tier). Oracle: (1) snapshot (type, mode, size, mtime, link text, SHA-256) of the scratch area outside the destination is unchanged; "
         "(2) no audit event of a mutating call (open-for-write, mkdir, symlink, link, rename, remove, rmdir, chmod, chown, utime, truncate, shutil.*) "
         "resolves outside realpath(destination). Raising is always allowed. Cell = shape signature of the archive (kinds + name/target classes) + destination mode.")
@@ -86,6 +87,19 @@ def cases(rng, tier):
     if tier == "thorough":
         med = shapes(NAMES_M, TARGETS_M)
         add([list(t) for t in itertools.product(med, repeat=3)], "3-entry-medium")
+    # parallel path under a controlled scheduler: one folder per entry, opened by name, workers parked at their mkdir/open/symlink
+    # calls and released in a random order (a check-then-act race between folder workers was found by a bug hunt: 0.3-1 % of free runs)
+    race = [[x, y, w] for x in lk for y in lk for w in [["b/b", "F", None], ["a/b", "F", None], ["a/c", "F", None], ["b/c/d", "F", None]] if x[0] != y[0]]
+    rng.shuffle(race)
+    race = race[: (60 if tier == "quick" else 400)]
+    for i in range(0, len(race), 10):
+        out.append({"kind": "race", "archives": race[i : i + 10], "schedules": 6 if tier == "quick" else 10, "seed": rng.getrandbits(32), "label": "parallel-race", "dest": "abs", "prepop": False, "open": "path", "perfile": True})
+    # histories: links made by one extract() call are on disk when the next call of the same session runs
+    hist = [[x, y, w] for x in lk for y in lk for w in [["b/newdir", "D", None], ["a/newdir", "D", None], ["b/f", "F", None], ["a/b/newdir", "D", None]] if x[0] != y[0]]
+    rng.shuffle(hist)
+    hist = hist[: (150 if tier == "quick" else 1500)]
+    for i in range(0, len(hist), 50):
+        out.append({"kind": "history", "archives": hist[i : i + 50], "label": "extract-reset-extract", "dest": modes[(i // 50) % 3], "prepop": False, "open": "stream" if (i // 50) % 2 else "path", "perfile": False})
     nrand = 2000 if tier == "quick" else 100000
     rnd = []
     for _ in range(nrand):
@@ -96,7 +110,12 @@ def cases(rng, tier):
 
 
 def worker_init():
+    import sys
+
+    from vf.props import c13
+
     jail.install()
+    sys.addaudithook(c13._audit)  # scheduler gates at open/mkdir/symlink (family 'race')
     # pre-import everything extraction may import lazily, so that no unrelated write event exists
     import encodings.utf_16_le  # noqa
     import psutil  # noqa
@@ -188,7 +207,8 @@ def run_case(case):
         parent, OUT = _mkscratch(root)
         D = os.path.join(parent, "dest")
         before = None
-        for ai, arc in enumerate(case["archives"]):
+        todo = [(ai, arc, k) for ai, arc in enumerate(case["archives"]) for k in range(case.get("schedules", 1))]
+        for ai, arc, rep_i in todo:
             shutil.rmtree(D, ignore_errors=True)
             if before is None:
                 before = jail.snapshot(root, D)
@@ -205,7 +225,7 @@ def run_case(case):
                 with open(os.path.join(D, "a", "keep.txt"), "wb") as f:
                     f.write(b"keep")
             if case["open"] == "path":
-                ap = os.path.join(arcdir, "h%d.7z" % ai)
+                ap = os.path.join(arcdir, "h%d_%d.7z" % (ai, rep_i))
                 with open(ap, "wb") as f:
                     f.write(data)
                 src = ap
@@ -223,12 +243,31 @@ def run_case(case):
                     dest = None
                 jail.start(D)
                 status = "completed"
+                sch = None
                 try:
+                    if case.get("kind") == "race":
+                        from vf.mon import sched as S
+                        from vf.props import c13
+
+                        sch = S.Sched(rng=random.Random(case["seed"] * 1000 + ai * 16 + rep_i), quiesce_s=0.02)
+                        c13._disk_gate["root"] = root
+                        S.install(sch)
                     with py7zr.SevenZipFile(src, "r") as z:
-                        z.extractall(dest) if dest is not None else z.extractall()
+                        if case.get("kind") == "history":
+                            first = [m["name"] for m in mem[:2]]
+                            z.extract(dest, targets=first) if dest is not None else z.extract(targets=first)
+                            z.reset()
+                            z.extract(dest, targets=[mem[2]["name"]]) if dest is not None else z.extract(targets=[mem[2]["name"]])
+                        else:
+                            z.extractall(dest) if dest is not None else z.extractall()
                 except Exception as e:
                     status = "raised"
                 finally:
+                    if sch is not None:
+                        S.uninstall()
+                        c13._disk_gate["root"] = None
+                        obs["controlled_schedules"] = obs.get("controlled_schedules", 0) + 1
+                        obs["worker_threads_scheduled"] = obs.get("worker_threads_scheduled", 0) + sch.workers_seen
                     rep = jail.stop()
                     os.chdir(cwd0)
             finally:
